@@ -37,8 +37,99 @@ def belongs(ob):
     return "/extra-axes-" in ob or ob.startswith("ccubes.ccube.product/") or ob.startswith("xcubes.xcube.product/")
 
 
+def structural():
+    """Obligations on the working-tree ASTs of ccube.product and ccube.calculate's task body (all inputs; syntactic):
+    sub-cubes are the product, in dimension order, of each dimension's slices1d() pairs; the block a sub-cube fills is
+    selected by the coordinates of its dimensions concatenated in dimension order, then axis order, as the LEADING
+    indices of each region.  -> (obligations [(name, ok, text)], stale [(name, why)])"""
+    import ast
+
+    from .. import env
+
+    tree = ast.parse(env.read_source("ccubes.py"))
+    cls = next((c for c in tree.body if isinstance(c, ast.ClassDef) and c.name == "ccube"), None)
+    meth = {m.name: m for m in (cls.body if cls else []) if isinstance(m, ast.FunctionDef)}
+    obls, stale = [], []
+    norm = lambda t: "".join(ast.unparse(ast.parse(t, mode="eval")).split()) if isinstance(t, str) else "".join(ast.unparse(t).split())  # noqa
+
+    def same(a, b):
+        """equal up to the names of comprehension variables"""
+        def canon(node):
+            node = ast.parse(ast.unparse(node), mode="eval").body
+            ren = {}
+            for n in ast.walk(node):
+                if isinstance(n, ast.comprehension):
+                    for t in ast.walk(n.target):
+                        if isinstance(t, ast.Name):
+                            ren.setdefault(t.id, "v%d" % len(ren))
+            for n in ast.walk(node):
+                if isinstance(n, ast.Name) and n.id in ren:
+                    n.id = ren[n.id]
+            return ast.dump(node)
+        return canon(a) == canon(b)
+    # ---- product
+    name = "ccubes.ccube.product/sub-cubes-are-the-product-in-dimension-order-of-each-dimension's-slices1d-pairs"
+    p_ = meth.get("product")
+    rets = [n for n in ast.walk(p_) if isinstance(n, ast.Return) and n.value is not None] if p_ else []
+    if len(rets) != 1 or not (isinstance(rets[0].value, ast.Call) and norm(rets[0].value.func) == "itertools.product"):
+        stale.append((name, "product() is no longer a single `return itertools.product(...)`"))
+    else:
+        want = ast.parse("itertools.product(*[({'coords': c, 'data': s} for c, s in dim.slices1d()) for dim in self.dims])", mode="eval").body
+        obls.append((name, same(rets[0].value, want), ast.unparse(rets[0].value)))
+    # ---- block selection in the task body
+    name = "ccubes.ccube.calculate/block-is-selected-by-the-sub-cube's-coordinates-in-dimension-then-axis-order-as-leading-indices"
+    calc = meth.get("calculate")
+    task = next((n for n in ast.walk(calc) if isinstance(n, ast.FunctionDef) and n.name == "fill_one_cube"), None) if calc else None
+    if task is None or len(task.args.args) != 1:
+        stale.append((name, "no nested fill_one_cube(subcube_dims)"))
+    else:
+        arg = task.args.args[0].arg
+        assigns = {a.targets[0].id: a.value for a in ast.walk(task) if isinstance(a, ast.Assign) and len(a.targets) == 1 and isinstance(a.targets[0], ast.Name)}
+        flat = [k for k, v in assigns.items() if isinstance(v, ast.ListComp) and len(v.generators) == 2]
+        coords = [k for k, v in assigns.items() if isinstance(v, ast.ListComp) and len(v.generators) == 1 and same(v, ast.parse("[dim['coords'] for dim in %s]" % arg, mode="eval").body)]
+        if len(flat) != 1 or len(coords) != 1:
+            stale.append((name, "the coordinate list / its flattening are not the two list comprehensions the obligation is stated for"))
+        else:
+            f, cname = flat[0], coords[0]
+            ok_flat = same(assigns[f], ast.parse("[e for coords in %s for e in coords]" % cname, mode="eval").body)
+            subs = [n for n in ast.walk(task) if isinstance(n, ast.Subscript) and norm(n.slice) == norm("tuple(%s)" % f)]
+            ok_sub = len(subs) >= 1 and all(isinstance(n.value, ast.Name) for n in subs)
+            data = [n for n in ast.walk(task) if isinstance(n, ast.ListComp) and same(n, ast.parse("[dim['data'] for dim in %s]" % arg, mode="eval").body)]
+            obls.append((name, bool(ok_flat and ok_sub and data), "flattening %s; block %s; sub-cube dims %s" % (
+                ast.unparse(assigns[f]), ", ".join(ast.unparse(n) for n in subs[:2]), ast.unparse(data[0]) if data else "-")))
+    return obls, stale
+
+
+def proved_part():
+    import ast
+
+    from .. import env
+    from ..kvc import discharge, slexec
+
+    stale = []
+    try:
+        obls = slexec.verify_slices1d(ast.parse(env.read_source("iindexes.py")))
+    except slexec.Unsupported as e:
+        return [], [("iindex.slices1d", str(e))]
+    return discharge.discharge(obls), stale
+
+
 def run(ctx):
+    results, sl_stale = proved_part()
+    st_obls, st_stale = structural()
     mon, totals = runner.run_sharded(drive_axes.work, ctx.tier, extra=int(ctx.seed))
+    donors = [f for f in mon.failures if belongs(f.obligation)]
+    for r in results:
+        if r.kind == "canary" and not r.discharged:
+            raise core.CheckerBroken("vacuous hypotheses: canary %s is %s" % (r.name, r.verdict))
+        if r.kind != "canary" and not r.discharged:
+            ctx.violation(core.Violation("C13", r.name, "obligation generated from the current source of slices1d is not discharged (%s by %s)%s" % (
+                r.verdict, r.backend, "; the bounded run of the real code fails %s: %s" % (donors[0].obligation, donors[0].what[:300]) if donors else ""),
+                input=donors[0].input if donors else None, cls={"function": "slices1d"},
+                solver={"verdict": r.verdict, "backend": r.backend, "detail": r.detail, "site": r.ob.meta.get("site", "")}, no_input=not donors))
+    # a structural obligation is a pattern: matching it proves the clause for all inputs, not matching it proves nothing
+    st_stale += [(name, "source is not of the stated form: %s" % text) for name, ok_, text in st_obls if not ok_]
+    st_obls = [o for o in st_obls if o[1]]
     lists = {k.split("/", 1)[1]: int(v) for k, v in mon.calls.items() if k.startswith("C13:dimension-lists/")}
     for need in ("[2]", "[3]", "[2, 2]", "[2, 3]", "[3, 3]"):
         if not any(k.endswith("=" + need) and v for k, v in lists.items()):
@@ -47,7 +138,20 @@ def run(ctx):
                   extra_cov={"dimension_lists_by_axes": lists, "structures": len(drive_axes.structures()),
                              "exhaustive_part": "all 432 dimension-list structures with pairwise different extra extents; dimension data exhaustive for shapes with at most "
                                                 "%d data sets; every block of every result" % drive_axes.scopes(ctx.tier)["cap"]})
-    ctx.assumptions += ["bounded: holds on the enumerated cube/call scope only (engine C is the bounded stand-in, not a proof)",
+    real = [r for r in results if r.kind != "canary"]
+    ctx.coverage["proved_subobligations"] = {
+        "what": "iindex.slices1d executed abstractly on the working tree's AST per contract case (no extra axis / one or more), induction over the number of axes: every "
+                "coordinate tuple in range is yielded exactly once, labelled in axis order, with the content at exactly those coordinates, the index's common value "
+                "and shape (N,); structural obligations: product() is the product in dimension order of the slices1d() pairs, the task body selects the block by the "
+                "coordinates concatenated in dimension-then-axis order as leading indices",
+        "obligations": len(real) + len(st_obls), "discharged": sum(1 for r in real if r.discharged) + sum(1 for o in st_obls if o[1]),
+        "canaries": sum(1 for r in results if r.kind == "canary"), "solver_s": round(sum(r.seconds for r in results), 2),
+        "names": [r.name for r in real] + [o[0] for o in st_obls], "proof_stale": sl_stale + st_stale}
+    if sl_stale or st_stale:
+        ctx.notes.append("proof_stale: %r - decided by the bounded block comparison" % (sl_stale + st_stale,))
+    ctx.assumptions += ["proved part: loop rules (each key / each bucket position once), constructor contract of iindex(entries, common, shape), itertools.product's "
+                        "documented order; the array cube's side (xcube.product, strided coordinates) is bounded only",
+                        "bounded: holds on the enumerated cube/call scope only (engine C is the bounded stand-in, not a proof)",
                         "oracle is relational by the property's own definition: a block of the library's output against the library's "
                         "output on the 1-D slices; agreement of 1-D cubes with the per-cell definition is C02/C03's obligation",
                         "iindex.slices1d's own iteration order is not constrained (only that the slice delivered with a coordinate is "
